@@ -158,6 +158,7 @@ def run(tier, seed):
     for r in node_insts[:: (3 if tier == "quick" else 1)]:
         paths = [p for p in r.get("proutes", []) if p][:2]
         sub.append({"id": sid, "nodes": r["nodes"], "edges": r["edges"], "nw": r["nw"], "paths": paths,
+                    "nw2": [rng.choice([0, 0, 1, 4, 7]) for _ in r["nodes"]],
                     "qstarts": r["nodes"][:1], "qends": r["nodes"][-1:]})
         sid += 1
     sc = vlib.scratch_dir()
